@@ -1823,7 +1823,8 @@ func (c *Conn) awaitSchemaAgreement(ctx context.Context) (err error) {
 			if err != nil {
 				goto cont
 			}
-			if !isValidPeer(host) || host.schemaVersion == "" {
+			// a null schema_version column is read as the zero UUID, not as ""
+			if !isValidPeer(host) || host.schemaVersion == "" || host.schemaVersion == (UUID{}).String() {
 				c.logger.Printf("invalid peer or peer with empty schema_version: peer=%q", host)
 				continue
 			}
